@@ -155,6 +155,12 @@ theorem table_refs_are_defined_earlier (b : Bodies) (rank rankB : Nat → Nat) (
     ∀ pre t post, compileMain b fuel extern main = pre ++ Ev.useRef t :: post → t ∈ extern ∨ Ev.ctePush t ∈ pre :=
   refs_defined b rank rankB hr extern fuel main hmain
 
+/-- **no_relation_is_defined_twice.** Whatever the structure (cyclic or not), the flags and the fuel: no relation is pushed
+to the WITH list twice - a relation is pushed only by the reference that finds it undefined and marks it defined first, and
+nothing is ever unmarked on that path. -/
+theorem no_relation_is_defined_twice (b : Bodies) (fuel : Nat) (extern : List Nat) (main : List Ref) :
+    (withList (compileMain b fuel extern main)).Nodup := with_list_nodup b fuel extern main
+
 /-- non-vacuity: main reads x (twice) and appends y (a sub-query); x reads the table 0 and z; y reads x. Ranked by
 0 < z=3 < x=1.. : rank := fun t => [0, 3, 4, 2].getD t 0 (table 0, x = 1, y = 2, z = 3) -/
 def exBodies : Bodies := [(1, [{ tid := 0, preferCte := true, allowCtes := true }, { tid := 3, preferCte := true, allowCtes := true, bodyId := 3 }]),
